@@ -138,7 +138,7 @@ def one(args):
 class RedfishLayer:
     name = 'redfish'
 
-    def __init__(self, quick=(16, 120, 8), thorough=(64, 400, 12)):
+    def __init__(self, quick=(16, 120, 8), thorough=(256, 400, 12)):
         self.quick = quick; self.thorough = thorough
 
     def build(self): build()
